@@ -892,11 +892,11 @@ func (f *frame) recvAssumptions(ch ssa.Value, v Val, et types.Type, guard, ok Te
 		env := f.pointEnv(f.heap)
 		env.vars["v"] = f.sval(v, et)
 		for _, cl := range rs.Assume {
-			f.c.assume(implies(and(guard, ok), f.evalClause(env, cl)))
+			f.assumeClause(env, cl, and(guard, ok))
 			f.c.assumed["assumed channel invariant (recv "+rs.Chan+"): "+cl.Text] = true
 		}
 		for _, cl := range rs.Closed {
-			f.c.assume(implies(and(guard, not(ok)), f.evalClause(env, cl)))
+			f.assumeClause(env, cl, and(guard, not(ok)))
 			f.c.assumed["assumed when channel "+rs.Chan+" is closed and drained: "+cl.Text] = true
 		}
 	}
